@@ -114,6 +114,20 @@ func (g *Gen) specialCall(fr *Frame, st *State, site ssa.Instruction, c *ssa.Cal
 		res := Val{T: g.newRef(fr.id + "err"), S: "Int", Ty: resTy()}
 		g.vc.assume("", fmt.Sprintf("(forall ((t Int)) (! (= (p$Is %s t) (= %s t)) :pattern ((p$Is %s t))))", res.T, res.T, res.T))
 		return res, true
+	case "errors.As":
+		// errors.As(err, &target): true iff some error in err's chain has target's type; the target is then written
+		g.vc.decl("p$errAs", "(declare-fun p$errAs (Int Int) Bool)")
+		tag := 0
+		if len(c.Args) == 2 {
+			if pt, ok := types.Unalias(c.Args[1].Type()).Underlying().(*types.Pointer); ok {
+				tag = g.typeTag(pt.Elem())
+				g.boxFn(pt.Elem())
+			}
+		}
+		if args[1].Ptr != nil {
+			g.havocPtr(st, args[1].Ptr)
+		}
+		return Val{T: fmt.Sprintf("(p$errAs %s %d)", args[0].T, tag), S: "Bool", Ty: types.Typ[types.Bool]}, true
 	case "errors.Is":
 		g.declIs()
 		return Val{T: fmt.Sprintf("(p$Is %s %s)", args[0].T, args[1].T), S: "Bool", Ty: types.Typ[types.Bool]}, true
